@@ -1,4 +1,4 @@
-import SC.Proofs.SrcBase
+import SC.Proofs.SrcNames
 import SC.Proofs.RIndexByte
 /-!
 `indexByte` (the core of `IndexByte` for `K k S s`) on the regenerated program text of `strcase.go`, relative to `indexRuneCase`:
